@@ -81,13 +81,23 @@ def gen_children_seq(rng, model, n, allow_nn, maxlen=5):
     if len(cur) > 24 and rng.random() < 0.6:
         # wide node: re-assign (almost) all of its children, in another order
         maxlen = len(cur) + 8
+    bulk = False
+    if N > 40 and rng.random() < 0.15:
+        # a bulk assignment in a large universe: dozens of distinct nodes from anywhere (bulk code paths, if any)
+        anc = set(model.ancestors(n))
+        anc.add(n)
+        cands = [i for i in range(N) if i not in anc]
+        if len(cands) >= 33:
+            xs = rng.sample(cands, rng.randint(33, min(len(cands), 80)))
+            maxlen = len(xs) + 8
+            bulk = True
     mode = rng.random()
-    if cur and mode < 0.7:
+    if cur and mode < 0.7 and not bulk:
         rng.shuffle(cur) if rng.random() < 0.5 else None
         keep = [c for c in cur if rng.random() < 0.75]
         xs.extend(keep)
     # stolen / roots / descendants / arbitrary
-    extra = rng.choice((0, 0, 1, 1, 2, 3))
+    extra = 0 if bulk else rng.choice((0, 0, 1, 1, 2, 3))
     for _ in range(extra):
         r = rng.random()
         if r < 0.3:
